@@ -4,6 +4,7 @@ CONSTANTS
   Lens = {1, 2, 3}
   OneAxisMax = 2
   LargeN = {}
+  BandN = {}
   AB_WrongStep = FALSE
   FromSet <- MCFromSet
   LargeSet <- MCLargeSet
